@@ -4,7 +4,9 @@ import (
 	"encoding/json"
 	"fmt"
 	"math/big"
+	"regexp"
 	"sort"
+	"strings"
 	"time"
 
 	"kmc/core"
@@ -170,6 +172,7 @@ func c10One(d jr.Dir) (string, string) {
 }
 
 func c10Run(e *core.Env) {
+	c10Command(e)
 	accs := []string{"Assets:Bank", "Liabilities:Card", "Equity:Opening", "Income:Salary", "Expenses:Rent"}
 	amounts := []string{"1", "-1", "0", "100", "0.01", "33.33333333", "1000000.000001"}
 	ivs := []string{"once", "daily", "weekly", "monthly", "quarterly", "yearly"}
@@ -272,6 +275,65 @@ func c10Run(e *core.Env) {
 				}
 			}
 		}
+	}
+}
+
+// c10Command: accruals at many positions of a long file (after every 5 of 1300 filler
+// transactions), and one daily accrual over two years, through the real loader and
+// `print`: every accrual must come out as its 12 (730) instalments, and the totals
+// through `balance` must be those of the original bookings.
+func c10Command(e *core.Env) {
+	if !e.Take() {
+		return
+	}
+	drv := e.Driver()
+	var b strings.Builder
+	b.WriteString("2019-12-31 open Assets:Bank\n2019-12-31 open Assets:Accrued\n2019-12-31 open Expenses:Rent\n2019-12-31 open Expenses:Food\n")
+	nAcc := 0
+	for i := 0; i < 1300; i++ {
+		fmt.Fprintf(&b, "2020-01-%02d \"f%04d\"\nAssets:Bank Expenses:Food 1 CHF\n\n", 1+i%28, i)
+		if i%5 == 4 {
+			fmt.Fprintf(&b, "@accrue monthly 2020-01-01 2020-12-31 Assets:Accrued\n2020-01-15 \"acc%03d\"\nAssets:Bank Expenses:Rent 1200 CHF\n\n", nAcc)
+			nAcc++
+		}
+	}
+	b.WriteString("@accrue daily 2020-01-01 2021-12-30 Assets:Accrued\n2020-01-15 \"daily\"\nAssets:Bank Expenses:Rent 730 CHF\n\n")
+	drv.Files(map[string]string{"j.knut": b.String()})
+	pr := drv.Run(nil, "print", "j.knut")
+	e.Count("evaluations")
+	if ab := pr.Abnormal(); ab != "" || pr.Exit != 0 {
+		e.Violation("C10:command:print-failed", ab+pr.Stderr, c10Case{}, nil)
+		return
+	}
+	counts := map[string]int{}
+	for _, m := range regexp.MustCompile(`"(acc\d{3}|daily) \(accrual \d+/(\d+)\)"`).FindAllStringSubmatch(pr.Stdout, -1) {
+		counts[m[1]]++
+	}
+	for i := 0; i < nAcc; i++ {
+		if n := counts[fmt.Sprintf("acc%03d", i)]; n != 12 {
+			e.Violation("C10:command:instalments-missing", fmt.Sprintf("accrual acc%03d (the %d-th transaction of the file) is printed with %d of its 12 instalments", i, 6*(i+1), n), c10Case{}, nil)
+			return
+		}
+	}
+	if n := counts["daily"]; n != 730 {
+		e.Violation("C10:command:instalments-missing", fmt.Sprintf("the daily accrual over 730 days is printed with %d instalments", n), c10Case{}, nil)
+		return
+	}
+	bal := drv.Run(nil, "balance", "--csv", "j.knut")
+	e.Count("evaluations")
+	wantRent := fmt.Sprint(nAcc*1200 + 730)
+	okRent, accrued := false, false
+	for _, ln := range strings.Split(bal.Stdout, "\n") {
+		f := strings.Split(ln, ",")
+		if len(f) >= 3 && f[0] == "Rent" && strings.TrimPrefix(f[len(f)-1], "-") == wantRent { // expenses are shown with the sign of the E+I+E section
+			okRent = true
+		}
+		if len(f) >= 3 && f[0] == "Accrued" && f[len(f)-1] != "" && f[len(f)-1] != "0" {
+			accrued = true
+		}
+	}
+	if bal.Exit != 0 || !okRent || accrued {
+		e.Violation("C10:command:totals", fmt.Sprintf("balance: exit %d, Expenses:Rent == %s: %v, Assets:Accrued non-zero: %v\n%s", bal.Exit, wantRent, okRent, accrued, clip(bal.Stdout, 800)), c10Case{}, nil)
 	}
 }
 
